@@ -13,35 +13,44 @@ def build():
 
 def run(tier, deadline):
     t0 = time.time(); build()
-    env = dict(os.environ, CAT_LIB=vbuild.build("prod"))
+    # the library as configured here (prod, -O0) and, in the thorough tier, the quick-sized enumeration once more on the library built the way a
+    # default ./configure builds it (dist: -O2, _FORTIFY_SOURCE=2, the repository's hardening flags)
+    envs = {v: dict(os.environ, CAT_LIB=vbuild.build(v)) for v in (("prod",) if tier == "quick" else ("prod", "dist"))}
     NS = 16
     groups = ["int", "float", "str", "multi"]
     jobs = [[g, tier, str(i), str(NS)] for g in groups for i in range(NS)]
+    def mkjobs(tier):
+        NS = 16
+        groups = ["int", "float", "str", "multi"]
+        jobs = [[g, tier, str(i), str(NS)] for g in groups for i in range(NS)]
+        return jobs
+    jobs = [("prod", j) for j in jobs] + ([("dist", j) for j in mkjobs("quick")] if tier == "thorough" else [])
     viol = {}; internal = []; tot = {"formats_with_values": 0, "calls": 0, "float_within_tolerance": 0}; timed_out = []
-    def one(j):
+    def one(vj):
+        v, j = vj
         left = deadline - (time.time() - t0)
-        try: return j, subprocess.run([BIN] + j, capture_output=True, text=True, errors="replace", env=env, timeout=max(5, left))
-        except subprocess.TimeoutExpired: timed_out.append(j); return j, None
+        try: return vj, subprocess.run([BIN] + j, capture_output=True, text=True, errors="replace", env=envs[v], timeout=max(5, left))
+        except subprocess.TimeoutExpired: timed_out.append(vj); return vj, None
     with ThreadPoolExecutor(16) as ex:
-        for j, r in ex.map(one, jobs):
+        for (v, j), r in ex.map(one, jobs):
             if r is None: continue
             if r.returncode != 0: internal.append(f"{j}: exit {r.returncode} {r.stderr[-200:]}"); continue
             for ln in r.stdout.splitlines():
                 if not ln.startswith("{"): continue
                 o = json.loads(ln)
-                if o["t"] == "viol": e = viol.setdefault(o["sig"], [0, o["case"]]); e[0] += o["n"]
+                if o["t"] == "viol": e = viol.setdefault(o["sig"], [0, o["case"], v]); e[0] += o["n"]
                 elif o["t"] == "stat":
                     for k in tot: tot[k] += o[k]
     if internal:
         for m in internal[:10]: print("INTERNAL-ERROR:", m, file=sys.stderr)
         return 2
-    violations = [common.Violation(sig, "", f"property=C11\nsignature={sig}\ncase={case}\n", n) for sig, (n, case) in sorted(viol.items())]
+    violations = [common.Violation(sig, "" if v == "prod" else "library build: " + v, f"property=C11\nvariant={v}\nsignature={sig}\ncase={case}\n", n) for sig, (n, case, v) in sorted(viol.items())]
     def confirm(v):
         kv = dict(l.split("=", 1) for l in v.replay_text.strip().splitlines()); return replay(kv, quiet=True) == 1
     cov = {"evaluations": tot["calls"], "distinct_nontrivial": tot["formats_with_values"],
            "rule": "every directive %[flags][width][.precision][length]conv with flags any subset of {- + space # 0} that C defines for the conversion, width in {none,1,5,12,40,64,*(7),*(-7)} (thorough: 23 widths up to 100), precision in {none,.0,.1,.5,.12,.40,.*(3),.*(-1)}, conversions d i u x X o with lengths {none,hh,h,l,ll,z,j,t} over {0,1,-1,42,-42,INT_MAX,INT_MIN,LLONG_MAX,LLONG_MIN} / {0,1,255,0x8000,UINT_MAX,ULLONG_MAX} truncated to the type; f F e E g G with {none,L} over 19 values (zeros of both signs, halves, 999999999.5, 1e9, 1e9+1, 1e300, smallest denormal, infinities, nan, small and 8-digit values); s ls c lc with four narrow (one UTF-8), three wide strings and ASCII/Latin-1 characters; %% and literal text; thorough adds two-directive formats. Each directive is wrapped in brackets and run through sprintf_s and snprintf_s with dmax in {1, need/2, need-4, need-2, need-1, need, need+1 (, 256)} and through fprintf_s on a memory stream; the reference is libc snprintf with the same arguments. Oracle: if the text fits, the return value equals printf's count and the bytes are equal (floating conversions: same layout, same length, value within one unit of the last printed digit); if it does not fit sprintf_s must fail and snprintf_s must fail or return a terminated prefix of the printf text; every case is run once after a neutral call and once after a call through the long-double and hex-float path and both runs must agree",
            "samples": ["[%-05d] INT_MIN dmax=need", "[%#.0o] 0", "[%+*.*Le] (7,3) 1e300", "[%.1g] 999999999.5", "[%-5.1ls] L\"\\u00e9\\u20ac\" fprintf_s", "[%.40u] ULLONG_MAX dmax=need-1"],
-           "float_cases_accepted_by_tolerance": tot["float_within_tolerance"], "jobs_timed_out": len(timed_out)}
+           "float_cases_accepted_by_tolerance": tot["float_within_tolerance"], "jobs_timed_out": len(timed_out), "library_builds": sorted(envs)}
     return common.finish("C11", tier, t0, cov, violations,
                          ["glibc snprintf is the reference for the C semantics", "locale C.UTF-8 (decimal point '.')", "combinations C leaves undefined ('#' with d i u, '+'/' ' with unsigned conversions, flags other than '-' with c s) are not enumerated", "printf_s writes to stdout through the same engine and sink type as fprintf_s and is not driven separately; vsprintf_s/vsnprintf_s/vfprintf_s are the functions the enumerated entry points forward to"],
                          confirm=confirm, exhaustive=not timed_out)
@@ -49,6 +58,6 @@ def run(tier, deadline):
 
 def replay(kv, quiet=False):
     build(); c = kv["case"].split(" ", 6)
-    r = subprocess.run([BIN, "replay"] + c, capture_output=True, text=True, errors="replace", env=dict(os.environ, CAT_LIB=vbuild.build("prod")))
+    r = subprocess.run([BIN, "replay"] + c, capture_output=True, text=True, errors="replace", env=dict(os.environ, CAT_LIB=vbuild.build(kv.get("variant", "prod"))))
     if not quiet: sys.stdout.write(r.stdout); sys.stderr.write(r.stderr)
     return r.returncode
